@@ -567,9 +567,15 @@ def tfrec_tables(ctx: Context):
         raise AnalysisError("C01.tfrec: no dtype reaches a feature constructor")
     reader: dict[str, str] = {}
     rd = None
-    for n in frm.body_nodes():
-        if isinstance(n, ast.Subscript) and ast.unparse(n.slice).endswith(
-                "attribute.dtype"):
+    # (the table may sit in a private helper the reader calls, e.g. from a
+    # comprehension where nothing can be inlined)
+    reach_r = {frm.fq} | ctx.cg.reachable([frm.fq])
+    rnodes = [n for f in mod.functions.values()
+              if f.fq in reach_r or f.qualname.startswith(frm.qualname)
+              for n in f.body_nodes()]
+    for n in rnodes:
+        if isinstance(n, ast.Subscript) and isinstance(
+                n.slice, ast.Attribute) and n.slice.attr == "dtype":
             if isinstance(n.value, ast.Dict):
                 rd = n.value
             elif isinstance(n.value, ast.Name) and isinstance(
